@@ -99,7 +99,21 @@ def get_stream(name, seed, tier, b, fp):
                 raise RuntimeError("model run failed: " + out[-2000:])
             meta["prefixes"].append(prefix); meta["gen_s"] = t; meta["model_s"] = t2; meta["info"] = info
         json.dump(meta, open(done, "w"))
+        prune_cache(keep=key)
         return meta
+
+
+def prune_cache(keep=None, max_dirs=24):
+    """stream caches are keyed by the fingerprints of /repo and /verif: every edit (and every seeded change) makes new
+    ones; only the most recent are kept so that the disk does not fill up"""
+    root = os.path.join(WORK, "cache")
+    try:
+        ds = sorted((d for d in os.listdir(root) if os.path.isdir(os.path.join(root, d))), key=lambda d: os.path.getmtime(os.path.join(root, d)), reverse=True)
+    except OSError:
+        return
+    for d in ds[max_dirs:]:
+        if d != keep:
+            shutil.rmtree(os.path.join(root, d), ignore_errors=True)
 
 
 # ---------------------------------------------------------------- the two builds against each other (C19)
